@@ -12,7 +12,9 @@ PROPS = {
     "C02": dict(level="exploration", shards=(4, 16), timeout=(900, 3000), assumptions=COMMON, fuzz=[("FuzzC02", 240)]),
     "C01": dict(level="exploration", shards=(4, 16), timeout=(600, 3000), assumptions=COMMON),
     "C06": dict(level="exploration", shards=(2, 16), timeout=(300, 1500), assumptions=COMMON),
+    "C14": dict(level="exploration", shards=(4, 16), timeout=(600, 3000), assumptions=COMMON + ["loopback TCP delivers bytes in order; the scripted peer's transcript is what the client wrote"]),
     "C15": dict(level="exploration", shards=(2, 16), timeout=(300, 1500), assumptions=COMMON, fuzz=[("FuzzC15", 60)]),
+    "C16": dict(level="exploration", shards=(4, 16), timeout=(600, 3000), assumptions=COMMON + ["loopback TCP delivers bytes in order; the scripted peer's transcript is what the component wrote"]),
     "C17": dict(level="exploration", shards=(2, 16), timeout=(300, 1500), assumptions=COMMON),
     "C19": dict(level="exploration", shards=(2, 16), timeout=(300, 1500), assumptions=COMMON),
     "C20": dict(level="exploration", shards=(2, 16), timeout=(300, 1500), assumptions=COMMON),
@@ -22,6 +24,16 @@ NOT_APPLICABLE = {}
 
 # Texts for MANIFEST.json
 TEXT = {
+    "C16": dict(
+        technique="property-based test (rapid) of a real Component against a scripted XMPP peer; digest recomputed by the harness; reply alphabet enumerated by variant",
+        level_text="Exploration: generated stream ids (attribute-legal text incl. entities, quotes, non-ASCII, empty) and secrets (arbitrary bytes) crossed with the server's reply (handshake in 3 forms, 8 stream errors, 8 unexpected elements, 4 malformed forms, truncated, closed); a real Component connects over loopback TCP; the handshake text must be the lower-case hex SHA-1 of id||secret, and Connect nil / state established / next stanza routed must hold exactly when the reply was <handshake/>.",
+        level_note="2000 connections quick, 60k thorough. Fault replies are sampled per case rather than enumerated for every id, since id/secret and reply are independent in the code.",
+    ),
+    "C14": dict(
+        technique="property-based test (rapid) of a real Client against a scripted XMPP peer; oracle on the peer's transcript",
+        level_text="Exploration: generated user names (everything NewJid accepts), secrets (arbitrary bytes), credential kind, server mechanism lists and server replies; a real Client connects over loopback TCP to a scripted peer which records the <auth/> element; the decoded payload must equal NUL local NUL secret byte for byte, the mechanism must be advertised and supported, no common mechanism must mean nothing is sent after the stream header and a permanent error, <failure/> must be a permanent error, and anything but <success/> must not authenticate.",
+        level_note="600 connections quick, 40k thorough. Only TCP (the WebSocket transport shares authSASL). Assumes the peer's XML reader reports what was on the wire.",
+    ),
     "C02": dict(
         technique="grammar-based property test (rapid) with a reference element list, metamorphic read-segmentation relation, truncation/corruption fault injection, child-process deep-nesting probes, native go fuzzing",
         level_text="Exploration: streams are generated from a grammar as values (header, 0-8 top-level elements of every kind NextPacket dispatches, child forests with unknown extensions, CDATA, comments and same-name descendants), serialised by an independent serialiser that records element end offsets, and read through generated segmentations; the k-th NextPacket result must have the kind and addressing of the k-th element, unknown elements must error, segmentation must not change the packets, truncation must return exactly the complete prefix then an error, corrupted bytes must end in an error without panic or hang. Deep nesting (to 60000 levels quick, 450000 thorough) is probed in child processes. 30k streams quick, 3M + 4 min of native fuzzing thorough.",
